@@ -1,95 +1,64 @@
 /-
 C10 — Move iterator honours its size and filtering contracts.
 
-`MoveGen` (Model/MoveGen.lean) is the model of the Rust iterator *after* the `fix:` commits.
-`movesOf g` is what the iterator state denotes: the moves it will still yield under its mask, in
-order.  The theorems say `next`, `len`, `is_empty`, `size_hint` agree with it for every state
-whose promotion cursor is at a group boundary (`promoIdx = 0`) — the states in which the
-recorded findings F11/F13 (known_findings.jsonl) cannot occur — and how `set_mask`, `remove`,
-`remove_move` change it.
+`Props/C10/Basic.lean` holds the refinement of the iterator (`next`, `len`, `is_empty`,
+`size_hint`, `remove`, `remove_move`, `set_mask`) to "the list of moves its entries denote"
+(`movesOf`) for states whose promotion cursor is at a group boundary — the states in which the
+recorded findings F11/F13 (known_findings.jsonl) cannot occur.  This file adds the statements
+about masks: generation under a mask, `set_mask` on an existing iterator, and successive masks
+that together cover the board.
 -/
-import ChessVerif.Proofs.Iter
+import ChessVerif.Props.C10.Basic
+import ChessVerif.Proofs.IterMask
 
 namespace Chess.Props.C10
 open Chess Chess.MoveGen
 
-/-- the moves one entry contributes under a mask: for each masked destination in ascending order,
-the four promotion choices (in `PROMOTION_PIECES` order) or the plain move -/
-def entryMoves (e : Entry) (mask : BB) : List Move :=
-  (BB.toList (e.moves &&& mask)).flatMap fun d =>
-    if e.promotion then promoPieces.map (fun p => (⟨e.src, d, some p⟩ : Move)) else [⟨e.src, d, none⟩]
+/-- **`legals_masked(m)`** yields exactly full generation filtered by destination, in the same
+order — for every board -/
+theorem movesOf_legalsMasked (b : Board) (m : BB) :
+    movesOf (legalsMasked b m) = (movesOf (legals b)).filter (fun x => BB.mem m x.dest) :=
+  Proofs.IterMask.movesOf_legalsMasked b m
 
-/-- what the iterator will still yield (cursor at a group boundary) -/
-def movesOf (g : MoveGen) : List Move := (g.moves.drop g.index).flatMap (fun e => entryMoves e g.mask)
+/-- … i.e., by C01, exactly the legal moves whose destination lies in the mask, each once -/
+theorem legalsMasked_iff (b : Board) (h : b.WF = true) (m : BB) (x : Move) :
+    x ∈ movesOf (legalsMasked b m) ↔ ((Spec.abs b).legal x = true ∧ BB.mem m x.dest = true) :=
+  Proofs.IterMask.legalsMasked_iff b h m x
 
-/-- the denotation functions above are the ones the helper lemmas (Proofs/Iter.lean) speak about -/
-theorem entryMoves_eq : entryMoves = eMoves := rfl
-theorem movesOf_eq : movesOf = mvsOf := rfl
+theorem legalsMasked_nodup (b : Board) (h : b.WF = true) (m : BB) : (movesOf (legalsMasked b m)).Nodup :=
+  Proofs.IterMask.legalsMasked_nodup b h m
 
-/-- `PROMOTION_PIECES` has four entries (translated constant) -/
-theorem promo_count : promoPieces.length = 4 ∧ numPromo = 4 := by decide
+/-- **`set_mask(m)`** on an existing iterator denotes exactly the not-yet-yielded moves with
+destination in `m` -/
+theorem setMask_perm_filter (g : MoveGen) (m : BB) :
+    (movesOf (g.setMask m)).Perm ((Proofs.IterMask.allMoves g).filter (fun x => BB.mem m x.dest)) :=
+  Proofs.IterMask.setMask_perm_filter g m
 
-/-- `len` (= `size_hint`) is the number of moves still to be yielded -/
-theorem len_eq (g : MoveGen) (h : g.promoIdx = 0) : g.len = (movesOf g).length :=
-  len_eq_mvsOf g h
+/-- one round under a mask: yields the remaining moves with destination in the mask, leaves the others -/
+theorem drainSt_round (g : MoveGen) (hg : g.promoIdx = 0) (m : BB) (fuel : Nat)
+    (hf : (Proofs.IterMask.allMoves g).length < fuel) :
+    let r := Proofs.IterMask.drainSt fuel (g.setMask m)
+    r.1.Perm ((Proofs.IterMask.allMoves g).filter (fun x => BB.mem m x.dest)) ∧
+    r.2.promoIdx = 0 ∧
+    (Proofs.IterMask.allMoves r.2).Perm ((Proofs.IterMask.allMoves g).filter (fun x => !BB.mem m x.dest)) :=
+  Proofs.IterMask.drainSt_round g hg m fuel hf
 
-/-- `is_empty` iff nothing is left to yield -/
-theorem isEmpty_iff (g : MoveGen) (h : g.promoIdx = 0) : g.isEmpty = (movesOf g).isEmpty := by
-  have _ := h   -- holds for every cursor position
-  exact isEmpty_eq_mvsOf g
+/-- **successive masks that together cover the board** yield every remaining move exactly once -/
+theorem rounds_cover (g : MoveGen) (hg : g.promoIdx = 0) (ms : List BB) (fuel : Nat)
+    (hf : (Proofs.IterMask.allMoves g).length < fuel)
+    (hcover : ∀ s : Sq, ∃ m ∈ ms, BB.mem m s = true) :
+    (Proofs.IterMask.rounds fuel g ms).Perm (Proofs.IterMask.allMoves g) :=
+  Proofs.IterMask.rounds_cover g hg ms fuel hf hcover
 
-/-- `next` on a non-promotion head entry: yields the head of `movesOf` and leaves a state denoting the tail -/
-theorem next_none_iff (g : MoveGen) (h : g.promoIdx = 0) : (g.next).1 = none ↔ movesOf g = [] := by
-  rw [(next_spec g (good_of_zero g h)).1, mvsAt_of_zero g h, List.head?_eq_none_iff]
-  rfl
+/-- … for the legal moves of a well-formed board: every legal move exactly once -/
+theorem rounds_legals (b : Board) (h : b.WF = true) (ms : List BB)
+    (hcover : ∀ s : Sq, ∃ m ∈ ms, BB.mem m s = true) :
+    (Proofs.IterMask.rounds 5000 (legals b) ms).Perm b.legalsList ∧
+    (Proofs.IterMask.rounds 5000 (legals b) ms).Nodup :=
+  Proofs.IterMask.rounds_legals b h ms hcover
 
-/-- draining yields exactly `movesOf g` (each once, in order) -/
-theorem drain_eq (g : MoveGen) (h : g.promoIdx = 0) (fuel : Nat) (hf : (movesOf g).length < fuel) :
-    drain fuel g = movesOf g := by
-  rw [movesOf_eq] at hf ⊢
-  rw [← mvsAt_of_zero g h] at hf ⊢
-  exact drain_eq_mvsAt fuel g (good_of_zero g h) hf
-
-/-- `remove(mask)` removes exactly the moves whose destination lies in `mask` -/
-theorem movesOf_remove (g : MoveGen) (m : BB) :
-    movesOf (g.remove m) = (movesOf g).filter (fun mv => !BB.mem m mv.dest) :=
-  mvsOf_remove g m
-
-/-- `remove_move(mv)` for a non-promotion entry removes exactly that move
-(for a promotion entry it removes all four choices of the destination: finding F11) -/
-theorem movesOf_removeMove (g : MoveGen) (mv : Move)
-    (hnp : ∀ e ∈ g.moves, e.src = mv.source → e.promotion = false) (hp : mv.piece = none) :
-    movesOf (g.removeMove mv).1 = (movesOf g).filter (fun x => x != mv) :=
-  mvsOf_removeMove g mv hnp hp
-
-/-- `set_mask(m)` restarts at the first entry and keeps every entry's destinations: the new state
-denotes, up to order, all not-yet-yielded moves of all entries whose destination lies in `m` -/
-theorem movesOf_setMask_perm (g : MoveGen) (m : BB) :
-    (movesOf (g.setMask m)).Perm (g.moves.flatMap (fun e => entryMoves e m)) :=
-  mvsOf_setMask_perm g m
-
-/-- `legals_masked(mask)` starts from an iterator whose mask is `mask`; `legals()` from the full mask -/
-theorem legalsMasked_mask (b : Board) (m : BB) : (legalsMasked b m).mask = m ∧ (legalsMasked b m).index = 0 ∧ (legalsMasked b m).promoIdx = 0 := by
-  simp [legalsMasked]
-
-/-- `next` in a group-boundary state: it yields the head of `movesOf`; the successor state is again
-described by the cursor-aware denotation `mvsAt` (= `movesOf` whenever its cursor is 0) -/
-theorem next_head (g : MoveGen) (h : g.promoIdx = 0) :
-    (g.next).1 = (movesOf g).head? ∧ mvsAt (g.next).2 = (movesOf g).tail ∧ Good (g.next).2 := by
-  have := next_spec g (good_of_zero g h)
-  rw [mvsAt_of_zero g h] at this
-  exact this
-
-/-- `next` on a non-promotion head: the successor is at a group boundary and denotes the tail -/
-theorem next_tail_of_boundary (g : MoveGen) (h : g.promoIdx = 0) (h' : (g.next).2.promoIdx = 0) :
-    movesOf (g.next).2 = (movesOf g).tail := by
-  rw [← (next_head g h).2.1, mvsAt_of_zero _ h']
-  rfl
-
-/-! Non-vacuity (tests): an empty entry, a promotion entry with two destinations, a plain entry -/
-example : drain 20 ⟨[⟨3, 0#64, false⟩, ⟨52, 0x3000000000000000#64, true⟩, ⟨1, 0x50000#64, false⟩], 0, BB.full, 0⟩ =
-    movesOf ⟨[⟨3, 0#64, false⟩, ⟨52, 0x3000000000000000#64, true⟩, ⟨1, 0x50000#64, false⟩], 0, BB.full, 0⟩ := by decide
-example : (movesOf ⟨[⟨3, 0#64, false⟩, ⟨52, 0x3000000000000000#64, true⟩, ⟨1, 0x50000#64, false⟩], 0, BB.full, 0⟩).length = 10 := by
-  decide
+/-- non-vacuity (test): captures first, then everything — the engine's root ordering — on the start position -/
+example : (Proofs.IterMask.rounds 5000 (legals Board.standard) [Board.standard.raw.color .black, BB.full]).length = 20 := by
+  decide +kernel
 
 end Chess.Props.C10
